@@ -20,7 +20,8 @@ class CsrEvMonWorld(World):
                        "(attachment variant)", "wiring.connect (attachment variant)")
     stub_components = ("CSR initiator (seeded open-loop agent)", "event source lines (seeded)")
     fault_kinds = ("abort", "gap", "event_in_clearing_cycle", "events_between_chunks",
-                   "write_zero_mask", "read_while_events_arrive", "event_map_queried_before_complete")
+                   "write_zero_mask", "read_while_events_arrive", "event_map_queried_before_complete",
+                   "second_instance_in_process")
     assumptions = (
         "Amaranth's Python RTL simulator executes the elaborated netlist faithfully",
         "only transaction-shaped CSR accesses are generated (complete or aborted, with gaps), "
@@ -41,7 +42,7 @@ class CsrEvMonWorld(World):
                 "trigger": rng.choice(TRIGGERS),
                 "attach": rng.wchoice([("direct", 5), ("decoder", 3), ("connect", 2)]),
                 "p_lv": rng.choice([5, 30, 60]), "hwseed": rng.bits(32),
-                "peek_sources": int(rng.chance(0.15))}
+                "peek_sources": int(rng.chance(0.15)), "decoy": int(rng.chance(0.1))}
 
     def gen_ops(self, rng, config, prop):
         dw = config["dw"]
@@ -77,6 +78,12 @@ class CsrEvMonWorld(World):
         dut = hw.must_accept("C14", f"csr.EventMonitor({n} events, data_width={dw}, alignment="
                              f"{config['al']})", csr.EventMonitor, em, trigger=config["trigger"],
                              data_width=dw, alignment=config["al"])
+        if config.get("decoy"):
+            em2 = event.EventMap()
+            for i_ in range((n % 3) + 1):
+                em2.add(event.Source(trigger=TRIGGERS[i_ % 3], path=(f"d{i_}",)))
+            csr.EventMonitor(em2, trigger=config["trigger"], data_width=dw, alignment=config["al"])
+            stats.fault("second_instance_in_process")
         top = hw.make_top(dut)
         attach = config["attach"]
         base = 0
